@@ -561,6 +561,23 @@ func genMain(args []string) {
 		g.vars = []string{"v", "w"}
 	}
 	for i := 0; i < *n; i++ {
+		if *prof == "progtext" {
+			// valid generated programs of every family, as compile-mode cases (C04)
+			saved := g.prof
+			g.prof = []string{"mix", "paths", "preds", "ops", "calls", "blocks", "sort", "group", "transform"}[g.r.Intn(9)]
+			src := g.program()
+			g.prof = saved
+			if g.chance(0.3) {
+				src = strings.ReplaceAll(src, " ", g.pick("  ", "\n", " \t "))
+			}
+			if g.chance(0.2) {
+				src = strings.ReplaceAll(src, "\"", "'")
+			}
+			b, _ := json.Marshal(M{"id": *start + i, "fam": *fam, "mode": "compile", "bytes": bytesJSON([]byte(src))})
+			w.Write(b)
+			w.WriteByte('\n')
+			continue
+		}
 		if *prof == "compile" {
 			b, _ := json.Marshal(M{"id": *start + i, "fam": *fam, "mode": "compile", "bytes": bytesJSON(g.compileInput())})
 			w.Write(b)
